@@ -7,4 +7,5 @@ for p in "$@"; do
   ( cd /verif && timeout 3000 ./vcheck $p 2>&1 | tail -3 )
 done
 git -C /repo checkout -- . 
+git -C /verif checkout -- evidence   # evidence written under a seeded change is not evidence
 git -C /repo status --short | head -3
